@@ -24,6 +24,9 @@ EXPLANATION = (
     'preload. C07.5: the per-trace header read has literal length 4 at offset FileOffset + 4*index inside the loop '
     'over stored keys on the structured, not-load-all branch. C07.6: get_trace reaches the chunk read only through '
     'the per-reader lru_cache wrapper whose maxsize flows from chunk_cache_size.')
+EXPLANATION += (
+    ' ADDED: Block-wise assembled arrays of the general loaders take part in the hull rule (the decoded region is the minimal aligned hull of the request on every axis).'
+)
 ASSUMPTIONS = [
     'request bounds are non-negative integers (C14 decides that they are checked)',
     'a fixed-rate ZFP stream of shape s occupies rate*prod(s)/8 bytes',
